@@ -130,6 +130,7 @@ func checkC06(c *Check) {
 
 	// ---- R4 id provenance in handlers
 	c.idProvenance()
+	c.serialBaseRule("R4")
 
 	// ---- R5 key layouts
 	c.keyLayoutsRule("R5", []string{"x/market/keeper", "x/deployment/keeper", "x/escrow/keeper", "x/audit/keeper", "x/cert/keeper"}, 6, 8)
